@@ -14,6 +14,10 @@ func init() {
 		case "mem", "kvplain":
 			cfg.MkFS = mkfs(kind)
 			cfg.CheckRootName = true
+		case "nomkdirall":
+			// mem.FS without MkdirAll / RemoveAll / WriteFile of its own: the package helpers take their fallback paths
+			cfg.MkFS = fsad.MaskedMemFS("dir:Mkdir+Stat+Remove+ReadDir")
+			cfg.CheckRootName = true
 		case "oshp":
 			cfg.MkFS = fsad.OSHackpadFS
 			cfg.GateOnly = true
